@@ -556,3 +556,33 @@ Theorem drop_after_abandon_refuted :
     quiescent (fst c) = true /\ bad (g (fst c)) = true /\ deleted (g (fst c)) = 0 /\
     In ETerminate (snd c) /\ src_stop (g (fst c)) = true.
 Proof. exists sched_finding14. vm_compute. repeat split; auto 30. Qed.
+
+(* ------------------------------------------------------------------------------------------ *)
+(* SpawnFault: every path through the start-up of spawn_detached / spawn_future deallocates   *)
+(* what it allocated and gives back every scope reference                                     *)
+
+Module SpawnFaultProofs.
+Import SpawnFault.
+
+Definition fault_valid (g : fn) (f : option stage) : Prop :=
+  match f with Some s => has_stage g s = true | None => True end.
+
+Theorem spawn_fault_clean (g : fn) (f : option stage) :
+  fault_valid g f ->
+  let s := run false g f in
+  allocs s = deallocs s /\ refs s = 0 /\
+  (threw s = true <-> f <> None) /\
+  (threw s = true -> started s = 0) /\
+  (threw s = false -> started s = 1 /\ completed s = 1 /\ allocs s = 1) /\
+  allocs s = (match f with Some SAlloc => 0 | _ => 1 end).
+Proof.
+  destruct g; destruct f as [[]|]; cbn; intros Hv; try discriminate Hv;
+    repeat split; try reflexivity; try discriminate; intros H; try discriminate H; try congruence.
+Qed.
+
+(* the variant whose deallocating guard is armed after nest(): a throwing nest leaks the block *)
+Theorem spawn_fault_late_guard_refuted :
+  let s := run true Detached (Some SNestOp) in
+  threw s = true /\ allocs s = 1 /\ deallocs s = 0.
+Proof. cbn. repeat split. Qed.
+End SpawnFaultProofs.
